@@ -470,3 +470,21 @@ Proof.
   pose proof (Forall_inv_tail O1) as O1'. pose proof (Forall_inv_tail O2) as O2'.
   f_equal; [symmetry; exact (zerosub_rec_inj d q p Hq Hp Pq)|exact (IH u O1' O2' Pt)].
 Qed.
+
+(* ---------------------------------------------------------------------------------------------- *)
+(* the not-yet-scrubbed counter looks at the just-synced flag only: a stripe that is recorded bad (or marked for
+   rehash) AND just synced is counted *)
+Lemma status_unscrubbed_ignores_bad (s : sstate) blockmax :
+  c_unscrubbed (status_count s blockmax) =
+  N.of_nat (length (filter (fun i => negb (info_at s i =? 0) && N.testbit (info_at s i) 2) (seq 0 blockmax))).
+Proof. destruct (status_counters s blockmax) as (_ & _ & _ & _ & H & _). exact H. Qed.
+
+Lemma status_step_bad_justsynced (s : sstate) c i :
+  info_bad (info_at s i) = true -> info_justsynced (info_at s i) = true ->
+  c_unscrubbed (status_step s c i) = c_unscrubbed c + 1 /\ c_bad (status_step s c i) = c_bad c + 1.
+Proof.
+  intros Hb Hj.
+  assert (Hnz : (info_at s i =? 0) = false).
+  { destruct (info_at s i =? 0) eqn:E; [|reflexivity]. apply N.eqb_eq in E. rewrite E in Hb. discriminate. }
+  rewrite step_unscrubbed, step_bad. unfold is_unscrubbed, is_bad, is_used. rewrite Hnz, Hb, Hj. simpl. split; reflexivity.
+Qed.
